@@ -496,25 +496,33 @@ def get_model_parser(top_rule, comments_model, **kwargs):
                     except KeyError:
                         pass
 
+                real_getattribute = user_class._tx_real_getattribute
+                if real_getattribute is not None and id(obj) not in user_class._tx_obj_attrs:
+                    # Not an object under construction (e.g. an object of a
+                    # model loaded earlier or by a nested load): the class
+                    # behaves as the user defined it.
+                    return real_getattribute(obj, name)
                 return super(user_class, obj).__getattribute__(name)
 
             def _setattr(obj, name, value):
                 try:
                     user_class._tx_obj_attrs[id(obj)][name] = value
                 except KeyError:
-                    try:
-                        return user_class._tx_real_setattr(name, value)
-                    except (AttributeError, TypeError):
-                        return super(user_class, obj).__setattr__(name, value)
+                    # Not an object under construction: use the method the
+                    # user class defines (if any).
+                    real_setattr = user_class._tx_real_setattr
+                    if real_setattr is not None:
+                        return real_setattr(obj, name, value)
+                    return super(user_class, obj).__setattr__(name, value)
 
             def _delattr(obj, name):
                 try:
                     user_class._tx_obj_attrs[id(obj)].pop(name)
                 except KeyError:
-                    try:
-                        return user_class._tx_real_delattr(name)
-                    except (AttributeError, TypeError):
-                        return super(user_class, obj).__delattr__(name)
+                    real_delattr = user_class._tx_real_delattr
+                    if real_delattr is not None:
+                        return real_delattr(obj, name)
+                    return super(user_class, obj).__delattr__(name)
 
             for a_name in ("setattr", "delattr", "getattribute"):
                 real_name = f"__{a_name}__"
